@@ -4,7 +4,7 @@
    Non-vacuity: ex_typed, ex_session, ex_neither, ex_negative_code, ex_limit, ex_chunking_dead,
    ex_oversized, ex_epilogue, ex_header (Framing_proofs), varint_examples, utf8_examples (Varint_proofs). *)
 From Coq Require Import String List NArith ZArith Bool.
-From MevVerif Require Import lib.Bytes lib.Varint model.Framing check.Check_C13 proofs.Varint_proofs proofs.Framing_proofs.
+From MevVerif Require Import lib.Bytes lib.Varint gen.Generated model.Framing check.Check_C13 proofs.Varint_proofs proofs.Framing_proofs.
 Import ListNotations.
 Open Scope N_scope.
 
@@ -15,8 +15,9 @@ Open Scope N_scope.
    messages/headers rests on the two premises Unmarshal(Marshal x) = x for protobuf-go, which
    the driver tests for every protocol message type (for headers the map framing is proved
    without premise in C13_header; a Go nil map and an empty map are the same header here).
-   Scope: every read runs to completion.  A ReadMsg abandoned through its context leaves a
-   goroutine that consumes and drops the next frame; that is outside this theorem. *)
+   Scope: this is about the frames the reader object delivers ([out s]); what the CALLERS get,
+   with the explicit premise that no read is abandoned, is C13_delivery, and the loss caused by
+   an abandoned read is C13_abandoned_read_loses_refuted. *)
 Theorem C13_roundtrip :
   forall (M H : Type) (marshal : M -> bytes) (unmarshal : bytes -> option M)
          (hmarshal : H -> bytes) (hunmarshal : bytes -> option H),
@@ -109,6 +110,22 @@ Theorem C13_neither : forall (fr : bytes) (fs : list field),
 Proof. exact neither_rejected. Qed.
 Print Assumptions C13_neither.
 
+(* An error member with code OK (next to C13_neither: it is not "neither", it is not rejected):
+   the call returns nil and the destination message is NOT touched.  Outside the property, which
+   speaks of non-OK statuses; stated so that the limit is visible. *)
+Theorem C13_ok_error_frame_view : forall (inner_ok : bytes -> bool) (s : status),
+  st_code s = 0%Z -> status_marshal_ok s = true -> len_of (enc_streammsg (BError s)) <= max_msg ->
+  view_of inner_ok (read_msg (enc_streammsg (BError s))) = {| returns_nil := true; dest_touched := false |}.
+Proof. exact ok_error_frame_view. Qed.
+Print Assumptions C13_ok_error_frame_view.
+
+(* ... and these are the only two ways a ReadMsg on a delivered frame returns nil. *)
+Theorem C13_returns_nil_only : forall (fr : bytes) (inner_ok : bytes -> bool),
+  returns_nil (view_of inner_ok (read_msg fr)) = true ->
+  (exists d, read_msg fr = RData d) \/ read_msg fr = ROkNoData.
+Proof. exact returns_nil_only. Qed.
+Print Assumptions C13_returns_nil_only.
+
 Theorem C13_data_sound : forall (fr d : bytes), read_msg fr = RData d ->
   exists fs, dec_fields fr = WFields fs /\ In (1, WLen d) fs.
 Proof. exact data_sound. Qed.
@@ -155,6 +172,46 @@ Theorem C13_readahead_refuted :
     fst (pull_seq aheadA 0 [true; false] mr_init mr_init (stream_of its)) = [PFrame (x "0a050a016b1200"); PEnd].
 Proof. exact two_readers_readahead_refuted. Qed.
 Print Assumptions C13_readahead_refuted.
+
+(* What the CALLERS get: ReadMsg calls are served with the delivered frames in call order.  With
+   the explicit premise that no call is abandoned ([no_abandon]: every read runs to completion),
+   one call per written item returns the items in order and nothing is lost ... *)
+Theorem C13_delivery : forall (its : list item) (cs : list bytes) (reqs : list req),
+  Forall item_ok its -> concat cs = stream_of its ->
+  no_abandon reqs = true -> length reqs = length its ->
+  exists got, serve reqs (out (feed_chunks cs)) = (got, []) /\ Forall2 delivered its got.
+Proof. exact callers_roundtrip. Qed.
+Print Assumptions C13_delivery.
+
+(* ... and without it the statement is false on the code as it is: a ReadMsg given up through
+   its context before its frame arrived leaves a goroutine that takes the first message written
+   ("one") into a channel nobody reads; the next ReadMsg returns the second ("two"). *)
+Theorem C13_abandoned_read_loses_refuted :
+  exists its cs reqs,
+    Forall item_ok its /\ concat cs = stream_of its /\ length reqs = S (length (fst (serve reqs (out (feed_chunks cs))))) /\
+    serve reqs (out (feed_chunks cs)) = ([item_body (IMsg (x "0a0374776f"))], [item_body (IMsg (x "0a036f6e65"))]) /\
+    fst (serve reqs (out (feed_chunks cs))) <> map item_body (firstn 1 its).
+Proof. exact abandoned_read_loses_refuted. Qed.
+Print Assumptions C13_abandoned_read_loses_refuted.
+
+(* Writes given up through their context have returned an error but are still written: every
+   call, given up or not, reaches the reader, in the order the frames reached the stream. *)
+Theorem C13_given_up_writes_still_arrive : forall (ws : list (wcall * bytes)) (cs : list bytes),
+  Forall (fun w => len_of (enc_streammsg (BData (snd w))) <= max_msg) ws ->
+  concat cs = concat (wire_of_calls ws) ->
+  map read_msg (out (feed_chunks cs)) = map (fun w => RData (snd w)) ws.
+Proof. exact given_up_writes_still_arrive. Qed.
+Print Assumptions C13_given_up_writes_still_arrive.
+
+(* The no-read-ahead premise of C13_two_readers is a fact of the msgio source the repository
+   builds against (regenerated on every run). *)
+Theorem C13_exact_reads_anchor :
+  Generated.c13_msgio_nextlen_readlen = [[bos "s.R"; bos "s.lbuf[:]"]] /\
+  Generated.c13_msgio_readlen_readfull = [[bos "r"; bos "buf"]] /\
+  Generated.c13_msgio_readmsg_readfull = [[bos "s.R"; bos "msg"]] /\
+  Generated.c13_msgio_reader_bufio = false /\ Generated.c13_msgio_reader_bufio_size = false.
+Proof. exact wiring_exact_reads. Qed.
+Print Assumptions C13_exact_reads_anchor.
 
 (* Headers without the protobuf premise, at the level of the map framing (Values are opaque
    byte strings): a header map with distinct UTF-8 keys, marshalled in ANY entry order, written
